@@ -2,6 +2,11 @@
 
 package netty
 
+import (
+	"context"
+	"sync/atomic"
+)
+
 // Verification-only hooks (build tag `verif`). Nothing here is compiled into
 // a normal build; see verif_off.go for the no-op counterparts of the call
 // sites.
@@ -17,4 +22,60 @@ func VerifCloseErr(ch Channel) error {
 		return r.err
 	}
 	return nil
+}
+
+// VerifSched is the cooperative scheduler a harness may install: every hook
+// parks the calling goroutine until the scheduler resumes it. `enabled` (may be
+// nil = always) tells the scheduler whether the next action could proceed.
+type VerifSched interface {
+	Yield(point string, enabled func() bool)
+}
+
+var verifSched VerifSched
+
+// SetVerifSched installs (or, with nil, removes) the scheduler. With no
+// scheduler installed every hook is a no-op, so the normal test suite also
+// passes with the tag on.
+func SetVerifSched(s VerifSched) { verifSched = s }
+
+func (c *channel) vp(point string, enabled func() bool) {
+	if s := verifSched; s != nil {
+		s.Yield(point, enabled)
+	}
+}
+
+// vpPoll replaces Close's 100ms sleep by a yield when a scheduler is installed.
+func (c *channel) vpPoll() bool {
+	if s := verifSched; s != nil {
+		s.Yield("c.sleep", nil)
+		return true
+	}
+	return false
+}
+
+func (c *channel) verifSelectReady(ctx context.Context) bool {
+	if !c.untilWrite {
+		return true
+	}
+	return len(c.writeQueue) < cap(c.writeQueue) || ctx.Err() != nil || c.ctx.Err() != nil
+}
+
+func (c *channel) verifLockFree() bool {
+	if c.writeLock.TryLock() {
+		c.writeLock.Unlock()
+		return true
+	}
+	return false
+}
+
+// VerifChanState is a snapshot of the fields the harness projects.
+type VerifChanState struct {
+	QLen, QCap      int
+	Running, Closed bool
+	CtxDone         bool
+}
+
+func VerifState(ch Channel) VerifChanState {
+	c := ch.(*channel)
+	return VerifChanState{len(c.writeQueue), cap(c.writeQueue), atomic.LoadInt32(&c.running) != 0, atomic.LoadInt32(&c.closed) != 0, c.ctx.Err() != nil}
 }
